@@ -277,6 +277,21 @@ static int _GD_UpdateAffixes(DIRFILE *D, int index, char *nsin, size_t nsl,
   F = D->fragment + index;
   P = D->fragment + F->parent;
 
+  /* This changes the names of all the fragment's fields, and the /INCLUDE line
+   * in its parent: check the access mode and the protection of both */
+  if ((D->flags & GD_ACCMODE) != GD_RDWR) {
+    free(nsin);
+    GD_SET_RETURN_ERROR(D, GD_E_ACCMODE, 0, NULL, 0, NULL);
+  } else if (F->protection & GD_PROTECT_FORMAT) {
+    free(nsin);
+    GD_SET_RETURN_ERROR(D, GD_E_PROTECTED, GD_E_PROTECTED_FORMAT, NULL, 0,
+        F->cname);
+  } else if (P->protection & GD_PROTECT_FORMAT) {
+    free(nsin);
+    GD_SET_RETURN_ERROR(D, GD_E_PROTECTED, GD_E_PROTECTED_FORMAT, NULL, 0,
+        P->cname);
+  }
+
   /* Forget about things that aren't changing. */
   if (nsin && ((nsl == 0 && F->nsl == 0) ||
       (nsl - 1 == F->nsl && strncmp(nsin, F->ns + P->nsl, F->nsl) == 0)))
